@@ -46,6 +46,33 @@ def _conj(c):
     return [c]
 
 
+_NEG = {'==': '!=', '!=': '==', '<': '>=', '>=': '<', '>': '<=', '<=': '>'}
+
+
+def _fatal_atoms(c, want):
+    """(op, lhs node, rhs node, node) relations whose disjunction equals `c == want` (negation normal form: !, De Morgan,
+    `(x) != 0`, __builtin_expect); a part that is not a comparison is returned as (None, None, None, node)."""
+    c = strip(c, casts=True)
+    if c is None:
+        return []
+    if c.kind == 'CallExpr' and callee_name(c) == '__builtin_expect':
+        return _fatal_atoms(c.kids[1], want)
+    if c.kind == 'UnaryOperator' and c.op == '!':
+        return _fatal_atoms(c.kids[0], not want)
+    if c.kind == 'BinaryOperator' and c.op in ('!=', '==') and int_value(c.kids[1]) == 0:
+        inner = strip(c.kids[0], casts=True)
+        if inner is not None and ((inner.kind == 'BinaryOperator' and inner.op in ('||', '|', '&&', '&', '!=', '==', '<', '>', '<=', '>=')) or
+                                  (inner.kind == 'UnaryOperator' and inner.op == '!') or (inner.kind == 'CallExpr' and callee_name(inner) == '__builtin_expect')):
+            return _fatal_atoms(inner, want if c.op == '!=' else not want)
+    if c.kind == 'BinaryOperator' and c.op in ('||', '|') and want:
+        return _fatal_atoms(c.kids[0], True) + _fatal_atoms(c.kids[1], True)
+    if c.kind == 'BinaryOperator' and c.op in ('&&',) and not want:
+        return _fatal_atoms(c.kids[0], False) + _fatal_atoms(c.kids[1], False)
+    if c.kind == 'BinaryOperator' and c.op in _NEG:
+        return [(c.op if want else _NEG[c.op], c.kids[0], c.kids[1], c)]
+    return [(None, None, None, c)]
+
+
 class Guard(object):
     """One `if (cond) m4ri_die(...)`: the branch CFG node, its relation atoms, the parameters mentioned."""
 
@@ -56,17 +83,12 @@ class Guard(object):
         self.params = set()
         names = dict((p.name, i) for i, p in enumerate(f.params))
         # only the *full* condition kills; with die_on == True the disjuncts are the individually fatal relations
-        parts = _disjuncts(self.cond) if die_on else [self.cond]
-        for a in parts:
-            a = strip(a, casts=True)
-            if a is None:
-                continue
+        for (op, ln, rn, a) in _fatal_atoms(self.cond, bool(die_on)):
             for n in a.walk():
                 if n.kind == 'DeclRefExpr' and n.refkind == 'ParmVarDecl':
                     self.params.add(n.ref)
-            if a.kind == 'BinaryOperator' and a.op in ('!=', '<', '>', '<=', '>=', '=='):
-                l, r = fs.sym(a.kids[0]), fs.sym(a.kids[1])
-                self.atoms.append((a.op, l, r, a))
+            if op is not None:
+                self.atoms.append((op, fs.sym(ln), fs.sym(rn), a))
 
     def canon(self, rename):
         out = []
